@@ -10,7 +10,7 @@ subprocess.check_call('git -C /repo worktree add --detach %s HEAD >/dev/null 2>&
 try:
     subprocess.check_call('git apply %s' % patch, shell=True, cwd=wt)
     for p in props:
-        r = subprocess.run('PV_REPO=%s /verif/check %s --no-evidence %s 2>&1' % (wt, p, os.environ.get('TRY_ARGS', '')),
+        r = subprocess.run('PV_REPO=%s timeout 600 /verif/check %s --no-evidence %s 2>&1' % (wt, p, os.environ.get('TRY_ARGS', '')),
                            shell=True, capture_output=True, text=True)
         lines = [l for l in r.stdout.splitlines() if l.startswith('violation:')]
         print('%s vs %s: exit %d  %s' % (os.path.basename(sid), p, r.returncode, (lines[0][:220] if lines else r.stdout.splitlines()[-1][:200] if r.stdout else '')))
